@@ -126,3 +126,87 @@ def check_vector_field(model, comp, rng, n_states=3, n_param_draws=1, vectorized
             if fails:
                 return fails
     return fails
+
+
+def run_model(model, T, dt, dts=None, solver="euler", vectorize=False, backend="default", outputs=None, inputs=None,
+              cutoff=0.0, style=0, tpl=None, **kw):
+    """CircuitTemplate.run on the MDL model; outputs default: one key per state variable ('v<i>' -> path)."""
+    tpl = tpl if tpl is not None else mdl.build_templates(model, style=style)
+    svars = mdl.state_vars(model)
+    if outputs is None:
+        outputs = {f"v{i}": p for i, p in enumerate(svars)}
+    kwargs = dict(simulation_time=T, step_size=dt, solver=solver, outputs=outputs, vectorize=vectorize, backend=backend,
+                  verbose=False, clear=False, in_place=True, float_precision="float64", cutoff=cutoff)
+    if dts is not None:
+        kwargs["sampling_step_size"] = dts
+    if inputs:
+        kwargs["inputs"] = inputs
+    kwargs.update(kw)
+    df = tpl.run(**kwargs)
+    return df, outputs, tpl
+
+
+def check_fixed_step_run(model, T, dt, dts, solver, vectorize, cutoff=0.0):
+    """C03-B: rows, index, first row, values == spec iterates, cutoff."""
+    fails = []
+    try:
+        df, outputs, _ = run_model(model, T, dt, dts, solver, vectorize, cutoff=cutoff)
+    except Exception as exn:
+        return [dict(clause="run returns a result for a well-formed request", observed=f"{type(exn).__name__}: {exn}")]
+    step = dts if dts else dt
+    rows = int(round(T / step))
+    times, ref = mdl.spec_fixed_step(model, T, dt, step, solver)
+    keep = [k for k in range(rows) if times[k] >= cutoff - 1e-12 * max(1.0, abs(cutoff))]
+    # on-grid cut-offs: the boundary row may fall on either side (floating point), accept both
+    alt = [k for k in range(rows) if times[k] > cutoff + 1e-9]
+    if len(df.index) not in (len(keep), len(alt)):
+        return [dict(clause="run: number of rows == round(T/sampling step) minus rows before the cutoff",
+                     observed=int(len(df.index)), expected=len(keep))]
+    use = keep if len(df.index) == len(keep) else alt
+    if len(use) and not np.allclose(np.asarray(df.index, dtype=float), times[use], rtol=1e-9, atol=1e-12):
+        fails.append(dict(clause="run: index holds the times k*sampling step", observed=list(map(float, df.index[:4])),
+                          expected=list(map(float, times[use][:4]))))
+    for key, path in outputs.items():
+        got = np.asarray(df[key], dtype=float).reshape(len(df.index), -1)[:, 0]
+        want = ref[path][use] if len(use) else np.zeros(0)
+        if len(want) < len(use):
+            fails.append(dict(clause="HARNESS", observed="reference shorter than the record"))
+            continue
+        if not np.allclose(got, want, rtol=1e-7, atol=1e-10):
+            bad = int(np.argmax(np.abs(got - want) > 1e-10 + 1e-7 * np.abs(want)))
+            fails.append(dict(clause=f"run: row k holds the {solver} iterate at time k*sampling step", var=path, row=bad,
+                              observed=float(got[bad]), expected=float(want[bad])))
+    return fails
+
+
+def check_adaptive_run(model, T, dt, dts, vectorize, method="RK45", rtol=1e-8, atol=1e-10):
+    """C03-B adaptive clause: scipy solution at the sample times within tolerance of a tight reference on spec_rhs."""
+    from scipy.integrate import solve_ivp
+    try:
+        df, outputs, _ = run_model(model, T, dt, dts, "scipy", vectorize, method=method, rtol=rtol, atol=atol)
+    except Exception as exn:
+        return [dict(clause="run returns a result for a well-formed request", observed=f"{type(exn).__name__}: {exn}")]
+    svars = mdl.state_vars(model)
+    y0 = mdl.initial_state(model)
+
+    def f(t, y):
+        dy, _ = mdl.spec_rhs(model, dict(zip(svars, y)), t=t)
+        return [dy[v] for v in svars]
+    step = dts if dts else dt
+    rows = int(round(T / step))
+    times = np.arange(rows) * (T / rows)
+    ref = solve_ivp(f, (0.0, T), [y0[v] for v in svars], t_eval=times, rtol=1e-11, atol=1e-13, method="DOP853")
+    fails = []
+    if len(df.index) != rows:
+        return [dict(clause="run: number of rows == round(T/sampling step)", observed=int(len(df.index)), expected=rows)]
+    if not np.allclose(np.asarray(df.index, dtype=float), times, rtol=1e-9, atol=1e-12):
+        fails.append(dict(clause="run: index holds the times k*sampling step", observed=list(map(float, df.index[:4])),
+                          expected=list(map(float, times[:4]))))
+    for key, path in outputs.items():
+        got = np.asarray(df[key], dtype=float).reshape(rows, -1)[:, 0]
+        want = ref.y[svars.index(path)]
+        if not np.allclose(got, want, rtol=2e-5, atol=2e-7):
+            bad = int(np.argmax(np.abs(got - want)))
+            fails.append(dict(clause="run: adaptive solution within tolerance of the true solution", var=path, row=bad,
+                              observed=float(got[bad]), expected=float(want[bad])))
+    return fails
